@@ -121,6 +121,7 @@ func main() {
 	NQ := flag.Int("nq", 0, "max length in the quick tier (default 100)")
 	NT := flag.Int("nt", 0, "max length in the thorough tier (default 160)")
 	impl := flag.String("impl", "default", "label of the build flavour (evidence only)")
+	noLong := flag.Bool("nolong", false, "skip the sparse set of long lengths")
 	replay := flag.String("replay", "", "")
 	flag.Parse()
 	r := res.New("C20")
@@ -140,7 +141,7 @@ func main() {
 		r.Write(*out)
 		return
 	}
-	r.Rule = "bounded-exhaustive: every (len a, len b) in 0..N x 0..N, start offsets of dst/a/b in 0..7 (all 8 for each slice with the others drawn from the PRNG, plus all 8 equal-offset triples), contents PRNG/0x00/0xFF, aliasing distinct|dst==a|dst==b, dst length min..min+9, slices with cap == len or as windows into larger arrays (spare capacity behind them); oracle = bytewise XOR from copies + unchanged guard zones; distinct = (len a, len b, alias, offset triple) combinations"
+	r.Rule = "bounded-exhaustive: every (len a, len b) in 0..N x 0..N plus every pair of a sparse set of 25 long lengths (block sizes 128, 256, 512, 1024, 4096 +-1 and 10 PRNG-chosen ones up to 5000; not in the sanitizer builds), start offsets of dst/a/b in 0..7 (all 8 for each slice with the others drawn from the PRNG, plus all 8 equal-offset triples), contents PRNG/0x00/0xFF, aliasing distinct|dst==a|dst==b, dst length min..min+9, slices with cap == len or as windows into larger arrays (spare capacity behind them); oracle = bytewise XOR from copies + unchanged guard zones; distinct = (len a, len b, alias, offset triple) combinations"
 	r.Assumptions = []string{"xor_arm.go/.s cannot execute on this amd64 sandbox: not covered", "partial overlaps other than dst==a / dst==b are outside the statement"}
 	n := 100
 	if *tier == "thorough" {
@@ -152,9 +153,41 @@ func main() {
 		n = *NQ
 	}
 	rng := rand.New(rand.NewSource(*seed + int64(*shard)*101))
-	idx := 0
+	// lengths: every pair in 0..n x 0..n, then every pair of a sparse set of long lengths (around the block sizes an
+	// implementation is likely to special-case, plus PRNG-chosen ones up to 5000; the same set in every shard)
+	lrng := rand.New(rand.NewSource(*seed*977 + 5))
+	var long []int
+	for _, b := range []int{128, 256, 512, 1024, 4096} {
+		for d := -1; d <= 1; d++ {
+			if b+d > n {
+				long = append(long, b+d)
+			}
+		}
+	}
+	for k := 0; k < 10; k++ {
+		long = append(long, n+1+lrng.Intn(5000-n))
+	}
+	if *noLong {
+		long = nil
+	}
+	type lp struct{ la, lb int }
+	var pairs []lp
 	for la := 0; la <= n; la++ {
 		for lb := 0; lb <= n; lb++ {
+			pairs = append(pairs, lp{la, lb})
+		}
+	}
+	for _, la := range long {
+		for _, lb := range long {
+			pairs = append(pairs, lp{la, lb})
+		}
+		pairs = append(pairs, lp{la, 7}, lp{7, la})
+	}
+	r.Max("max_len_sparse", int64(5000))
+	idx := 0
+	for _, pr := range pairs {
+		la, lb := pr.la, pr.lb
+		{
 			idx++
 			if idx%*nshard != *shard {
 				continue
